@@ -3,7 +3,7 @@ import re
 import string
 import logging
 from bisect import bisect
-from ast import Name as AstName, Attribute, Call, FunctionDef, ClassDef, Lambda
+from ast import Name as AstName, Attribute, Call, FunctionDef, ClassDef, Lambda, AsyncFunctionDef
 
 from .util import (Location, np, insert_loc, cached_property,
                    get_indexes_for_target, context_property)
@@ -466,7 +466,7 @@ def get_first_body_node_loc(body):
     if not body:
         return None
 
-    if type(body[0]) in (FunctionDef, ClassDef) and body[0].decorator_list:  # type: ignore[attr-defined]
+    if type(body[0]) in (FunctionDef, AsyncFunctionDef, ClassDef) and body[0].decorator_list:  # type: ignore[attr-defined]
         return np(body[0].decorator_list[0])  # type: ignore[attr-defined]
 
     for n in body:
